@@ -3,6 +3,8 @@ import VlsModel.Gen.FnTxUtil
 import VlsModel.Gen.FnTxInfo
 import VlsModel.Gen.FnChannel
 import VlsModel.Gen.FnChannelOic
+import VlsModel.Gen.FnFilterC04
+import VlsModel.Model.Bolt3Filter
 import VlsModel.Lemmas.FnGen
 /-
 C04 — `Bolt3.estimateFeerate` (the feerate the signer infers for a second-level HTLC transaction,
@@ -191,5 +193,55 @@ theorem C04_fn_oic_fields (b : Bool) (h : Bolt3.Htlc) :
     (oicOf b h).payment_hash = h.hash := by
   refine ⟨rfl, ?_, rfl, rfl⟩
   simp [oicOf]
+
+/-! ## `PolicyFilter::filter` (policy/filter.rs) = the model's `filterIsError`
+
+`policy_err!(validator, "policy-commitment", "recomposed tx mismatch")` returns the error iff the node's filter maps the
+tag to `FilterResult::Error`; the model's `Env.mismatchIsError` is `filterIsError rules "policy-commitment"`.  The loop
+with early `return` of the source (`Rs.loopM`) is proved equal to the model's first-match recursion, for every rule
+list and every tag. -/
+
+def toGenRule (r : Bolt3.FRule) : Gen.FnFilterC04.FilterRule :=
+  { tag := r.tag, is_prefix := r.isPrefix, action := if r.warn then .Warn else .Error }
+
+theorem C04_fn_policy_filter (rules : List Bolt3.FRule) (tag : String) :
+    Gen.FnFilterC04.PolicyFilter.filter ⟨rules.map toGenRule⟩ tag =
+      .ok (if Bolt3.filterIsError rules tag then .Error else .Warn) := by
+  unfold Gen.FnFilterC04.PolicyFilter.filter
+  induction rules with
+  | nil => simp [Bolt3.filterIsError]
+  | cons r rs ih =>
+    simp only [List.map_cons, Rs.loopM, toGenRule, Bolt3.filterIsError, Bolt3.FRule.matchesTag] at ih ⊢
+    by_cases hm : (if r.isPrefix = true then r.tag.isPrefixOf tag else tag == r.tag) = true
+    · by_cases hw : r.warn = true <;> simp [hm, hw]
+    · simp only [hm, Bool.false_eq_true, if_false, Rs.bind_ok, Rs.pure_eq] at ih ⊢
+      exact ih
+
+/-- `PolicyFilter::new_permissive()` demotes every tag, `policy-commitment` included (the documented opt-out) -/
+theorem C04_fn_policy_filter_permissive (tag : String) :
+    Gen.FnFilterC04.PolicyFilter.filter Gen.FnFilterC04.PolicyFilter.new_permissive tag = .ok .Warn := by
+  have h : Gen.FnFilterC04.PolicyFilter.new_permissive = ⟨[⟨"", true, true⟩].map toGenRule⟩ := rfl
+  rw [h, C04_fn_policy_filter]
+  simp [Bolt3.filterIsError, Bolt3.FRule.matchesTag, String.isPrefixOf]
+
+/-- with no rule at all (`PolicyFilter::default()`, the default policy) every tag is an error -/
+theorem C04_fn_policy_filter_default (tag : String) :
+    Gen.FnFilterC04.PolicyFilter.filter ⟨[]⟩ tag = .ok .Error :=
+  C04_fn_policy_filter [] tag
+
+/-- rules that do not match `policy-commitment` leave the equality test of the raw entry point an error — in
+    particular exact rules for *other* tags (`policy-commitment-fee-range`, …), whatever their action -/
+theorem C04_fn_policy_filter_unmatched (rules : List Bolt3.FRule) (tag : String)
+    (h : ∀ r ∈ rules, r.matchesTag tag = false) : Bolt3.filterIsError rules tag = true := by
+  induction rules with
+  | nil => rfl
+  | cons r rs ih =>
+    have h1 := h r (List.mem_cons_self ..)
+    simp only [Bolt3.filterIsError, h1, Bool.false_eq_true, if_false]
+    exact ih (fun r' hr' => h r' (List.mem_cons_of_mem _ hr'))
+
+theorem C04_fn_exact_rule_other_tag (r : Bolt3.FRule) (tag : String) (hp : r.isPrefix = false) (hne : tag ≠ r.tag) :
+    r.matchesTag tag = false := by
+  simp [Bolt3.FRule.matchesTag, hp, hne]
 
 end VlsModel.Props.C04Fn
